@@ -695,6 +695,15 @@ func sampleScenario(rng *rand.Rand, mode Mode, i int, thorough bool) Scenario {
 		}
 		sc.Tasks = append(sc.Tasks, calls)
 	}
+	for _, calls := range sc.Tasks {
+		for _, c := range calls {
+			if c.Huge {
+				// ten MiB in pieces of a few bytes would be millions of yields and no coverage
+				sc.MinChunk, sc.MaxChunk = 1<<16, 1<<16
+				sc.YieldP = 0.05
+			}
+		}
+	}
 	return sc
 }
 
